@@ -251,7 +251,26 @@ def _short(v, n=160):
 # (a) framer in-process: the receive loop of enip_srv_tcp
 
 
+@contextlib.contextmanager
+def quiet_finalizers():
+    """Abandoning an engine in the middle of a frame (which the harness does when no EOF is delivered, and the
+    client does after an error) finalizes cpppo's nested generators; their terminate() hooks may raise inside the
+    finalizer, which CPython only reports on stderr ("Exception ignored in ...").  Not an observation: silenced."""
+    import sys
+    old = sys.unraisablehook
+    sys.unraisablehook = lambda *a, **k: None
+    try:
+        yield
+    finally:
+        sys.unraisablehook = old
+
+
 def run_framer(chunks, eager, eof, max_frames):
+    with quiet_finalizers():
+        return _run_framer(chunks, eager, eof, max_frames)
+
+
+def _run_framer(chunks, eager, eof, max_frames):
     """-> (frames, tail)   frames: [(flat data, consumed, sent_total)]
     tail: ('clean', consumed) engine ended normally with empty data (server: clean end of session)
           ('blocked', flat data, consumed) engine waits for input that never came (no EOF delivered)
@@ -375,22 +394,24 @@ def _judge_frames(stats, clause, case, frames, tail, got, prefix, ignore=None):
 def sweep_positions(frames, tail, sampled, part):
     """Two-way split positions enumerated for a stream: every position 1..n-1, or (sampled, used by the quick
     tier for streams holding a > 4096 byte payload, where positions deep inside one payload are equivalent for the
-    parser) every position within 40 bytes of a frame edge, within 2 of a multiple of the 4096-byte recv block,
-    and every 61st position.  part=(i, m): the i-th of m interleaved shares."""
+    parser) every position within 40 (sparse: 8) bytes of a frame edge, within 2 of a multiple of the 4096-byte recv
+    block, and every 61st (sparse: 509th) position.  part=(i, m): the i-th of m interleaved shares."""
     n = sum(map(len, frames)) + len(tail)
     if not sampled:
         pos = list(range(1, n))
     else:
+        near, stride = (40, 61) if sampled == 1 else (8, 509)       # 2: sparse (client, ~0.35 s per case)
         edges = [0]
         for f in frames:
             edges.append(edges[-1] + len(f))
         edges.append(n)
         keep = set()
         for e in edges:
-            keep.update(range(e - 40, e + 41))
+            keep.update(range(e - near, e + near + 1))
+            keep.update(range(e + 24 - 2, e + 24 + 3))      # header / payload edge
         for b in range(RECV_BLOCK, n, RECV_BLOCK):
             keep.update(range(b - 2, b + 3))
-        keep.update(range(61, n, 61))
+        keep.update(range(stride, n, stride))
         pos = sorted(k for k in keep if 0 < k < n)
     i, m = part or (0, 1)
     return n, [k for j, k in enumerate(pos) if j % m == i], i == 0
@@ -434,6 +455,11 @@ def listener():
 
 
 def run_client(chunks):
+    with quiet_finalizers():
+        return _run_client(chunks)
+
+
+def _run_client(chunks):
     """Serve chunks to a fresh client.client; -> (replies [flat], end)
     end: ('eof-clean',) StopIteration after EOF | ('error', type, text) | ('runaway',)"""
     from cpppo.server.enip import client
@@ -708,8 +734,18 @@ def tcp_one(case, stats):
             try:
                 sock.settimeout(TMO)
                 sock.sendall(stream[:k])
+                # "acted upon if its final byte has been delivered": the replies to the complete frames must not
+                # wait for the end of the stream (a missing reply shows only as a timeout => inconclusive)
+                early = b''
+                if complete:
+                    fr, left, eof0 = sim.recv_frames(sock, complete, TMO)
+                    if len(fr) < complete and not eof0:
+                        raise HarnessError('only %d of %d complete requests answered within %.0fs while the connection '
+                                           'stays open (offset %d)' % (len(fr), complete, TMO, k))
+                    early = b''.join(fr) + left
                 sock.shutdown(socket.SHUT_WR)
                 buf, eof = sim.recv_until_eof(sock, TMO)
+                buf = early + buf
             except socket.timeout:
                 raise HarnessError('send timed out')
             except OSError as exc:
@@ -749,7 +785,13 @@ def tcp_one(case, stats):
             want = model_after(ops, complete).snapshot()
             got = srv.snapshot()
             if got != want:
-                acted = complete < len(ops) and got == model_after(ops, complete + 1).snapshot()
+                # root cause: did only the slots the unfinished request addresses change?
+                acted = False
+                if complete < len(ops):
+                    cut = ops[complete]
+                    lo = cut['elem'] or 0
+                    acted = all(got[n] == want[n] or (n == cut['tag'] and all(
+                        got[n][j] == want[n][j] or lo <= j < lo + cut['count'] for j in range(len(want[n])))) for n in want)
                 fail('tcp:unfinished-frame-changed-tags' if acted else 'tcp:tags-differ-from-model',
                      {n: got[n] for n in got if got[n] != want[n]}, {n: want[n] for n in got if got[n] != want[n]})
             # the witness reads the tag the cut request addresses
@@ -1036,10 +1078,16 @@ def shard(job):
         common.hyp_run(s, framer_strategy(skey), pred_framer, n, sd, 'framer', PID, skey=skey)
     elif kind == 'client':
         common.hyp_run(s, client_strategy(skey), pred_client, n, sd, 'client', PID, skey=skey)
-    elif kind == 'tcp':
-        common.hyp_run(s, tcp_strategy(skey), pred_tcp, n, sd, 'tcp-truncation', PID, skey=skey)
-    elif kind == 'tcp-register':
-        common.run_pred(pred_tcp, {'ops': [], 'register_only': True, 'k': 'all'}, s, 'tcp-truncation')
+    elif kind in ('tcp', 'tcp-register'):
+        # a socket timeout is inconclusive; it must not hide what the other engines found in the same run
+        try:
+            if kind == 'tcp':
+                common.hyp_run(s, tcp_strategy(skey), pred_tcp, n, sd, 'tcp-truncation', PID, skey=skey)
+            else:
+                common.run_pred(pred_tcp, {'ops': [], 'register_only': True, 'k': 'all'}, s, 'tcp-truncation')
+        except HarnessError as exc:
+            s.extra['tcp_inconclusive_shards'] = 1
+            s.notes.append('TCP shard inconclusive: %s' % (str(exc).strip().splitlines()[-1][:200],))
     else:
         raise HarnessError('unknown job %r' % (job,))
     return s
@@ -1076,8 +1124,8 @@ def run(tier, seed):
         for _ in range(2):
             add('client', 3, ['sweep', 'reply', 'one', None, False], parts=16)
     else:
-        add('framer', 3, ['sweep', 'mixed', 'one', None, True], parts=8)
-        add('client', 2, ['sweep', 'reply', 'one', None, True], parts=6)
+        add('framer', 3, ['sweep', 'mixed', 'one', None, 1], parts=8)
+        add('client', 2, ['sweep', 'reply', 'one', None, 2], parts=8)
     # small streams: every two-way split
     for _ in range(12 if not thorough else 32):
         add('framer', 5 if not thorough else 40, ['sweep', 'mixed', None, None, False])
@@ -1093,8 +1141,11 @@ def run(tier, seed):
         for _ in range(4):
             add('framer', 6, ['huge'])
     stats = common.parallel(shard, jobs)
-    big = ('all positions' if thorough else 'positions within 40 bytes of a frame edge, within 2 of a 4096-byte block edge and every '
-           '61st position (quick tier; the thorough tier enumerates all)')
+    if stats.extra.get('tcp_inconclusive_shards') and not stats.fails:
+        raise HarnessError('%d TCP shard(s) inconclusive: %s' % (stats.extra['tcp_inconclusive_shards'],
+                                                              '; '.join(n for n in stats.notes if n.startswith('TCP shard'))))
+    big = ('all positions' if thorough else 'positions within 40 (client: 8) bytes of a frame edge, within 2 of a 4096-byte block edge '
+           'and every 61st (client: 509th) position (quick tier; the thorough tier enumerates all)')
     stats.exhaustive['framer:two-way-splits'] = (
         'every cut position 1..len-1 of every generated stream without a > 4096 byte payload (EOF delivered; every 7th '
         'position also without EOF), plus byte-at-a-time, one chunk and 4096-byte blocks; streams holding a > 4096 byte '
